@@ -99,7 +99,8 @@ structure St where
   cons : CPc
   delivered : List Nat      -- indices whose mapped value `Emit` returned, in order
   res : Option Res
-  -- ghost history flags
+  -- ghost history
+  mapCalls : List Nat       -- indices the mapper was invoked for, in invocation order
   errBudget : Nat           -- remaining source failures the environment may inject
   drained : Bool            -- the consumer's pull observed tgtChan closed and empty (it drained the stage)
   stopped : Bool            -- the downstream ended the materialisation (Limit / FindFirst / consumer error)
@@ -125,7 +126,7 @@ def init (cfg : Cfg) : St :=
     prod := .top, srcChan := [], srcChClosed := false,
     wIdle := cfg.c, wMap := [], wHold := [], wExit := 0, tgtChan := [], tgtClosed := false,
     eof := false, ctx0 := false, term1 := false,
-    cons := .check, delivered := [], res := none, errBudget := cfg.e, drained := false,
+    cons := .check, delivered := [], res := none, mapCalls := [], errBudget := cfg.e, drained := false,
     stopped := false, faulted := false }
 
 def step (cfg : Cfg) (s : St) : Label → Option St
@@ -163,7 +164,7 @@ def step (cfg : Cfg) (s : St) : Label → Option St
   | .wRecv =>      -- :63 receive; value → mapper call :78, error → forward :69
     if 0 < s.wIdle then
       match s.srcChan with
-      | .val i :: r => some { s with wIdle := s.wIdle - 1, srcChan := r, wMap := s.wMap ++ [i] }
+      | .val i :: r => some { s with wIdle := s.wIdle - 1, srcChan := r, wMap := s.wMap ++ [i], mapCalls := s.mapCalls ++ [i] }
       | .err :: r => some { s with wIdle := s.wIdle - 1, srcChan := r, wHold := s.wHold ++ [.err] }
       | [] => none
     else none
